@@ -136,7 +136,8 @@ def render_expr(e, lang, sp):
     k = e[0]
     R = lambda x: render_expr(x, lang, sp)
     if k == 'f':
-        if sp.field_style == 'a[N]':
+        style = e[3] if len(e) > 3 else sp.field_style
+        if style == 'a[N]':
             return '%s[%d]' % (e[1], e[2])
         return '%s%d' % (e[1], e[2])
     if k == 'named':
